@@ -446,6 +446,24 @@ fn add_faults(rng: &mut Rng, case: &mut gen::Case, sparse_ok: bool) {
         // a device-wide oddity instead of bad keys: short answers, or refusal of ranges that
         // run past the last key
         case.abs.faults = vec![if rng.chance(1, 2) { Fault::Sparse } else { Fault::WrapError { id: 7300 } }];
+        if matches!(case.abs.faults[0], Fault::WrapError { .. }) {
+            // aim half of the reads at the end of the key space: the last key alone (served) or
+            // a range running past it (refused)
+            for p in case.abs.preds.iter_mut() {
+                for r in p.roles.iter_mut() {
+                    let spec = match r {
+                        gen::Role::Read(s) => s,
+                        gen::Role::ReadCheck { spec, .. } => spec,
+                        _ => continue,
+                    };
+                    if rng.chance(1, 2) {
+                        spec.key = if rng.chance(1, 2) { vec![] } else { vec![essential_types::Word::MAX] };
+                        spec.count = 1 + rng.usize(2);
+                        spec.room = 12;
+                    }
+                }
+            }
+        }
         case.abs.entry = crate::wl::Entry::TwoPass;
         gen::finalize(&mut case.abs, &case.numberings);
         case.w = gen::realize(&case.abs, &case.numberings);
